@@ -69,6 +69,40 @@ Theorem C10_crash_safe_composite :
 Proof. exact crash_safe_composite_src. Qed.
 Print Assumptions C10_crash_safe_composite.
 
+(* ... and relative to the whole call: a Delete-with-AutoGC cascade or a GC (any list of plain
+   deletes, Forget and SaveIndex) only ever removes: whatever the cut, every blob that was
+   there before the call and is there after it is there, and nothing is there that was
+   not there before the call. *)
+Theorem C10_cascade_blobs_between :
+  forall (H : list N -> N) (shuffle : nat -> list entry -> list entry),
+    (forall c l e, In e (shuffle c l) <-> In e l) ->
+    forall (h : list hop) (os : list op) (k : nat),
+      (forall o, In o os -> match o with Delete _ | Forget _ | SaveIndex => True | _ => False end) ->
+      let s := runc H shuffle src_inplace src_unlink_first h init in
+      let fsk := crash_seq H shuffle src_inplace src_unlink_first s os k in
+      let fs1 := sfs (run H shuffle src_inplace src_unlink_first os s) in
+      (forall d, has (sfs s) (FBlob d) -> has fs1 (FBlob d) -> has fsk (FBlob d)) /\
+      (forall d, has fsk (FBlob d) -> has (sfs s) (FBlob d)).
+Proof. exact crash_shrinking_between_src. Qed.
+Print Assumptions C10_cascade_blobs_between.
+
+(* Delete with AutoGC, tag mapping: the cascade deletes the target d and then nodes xs that
+   carry no reference name (the code skips tagged referrers and tagged dangling content).
+   Whatever the cut, after any earlier crashes: the tag mapping read from index.json is
+   the one before the call or the one after it -- although index.json itself is rewritten
+   several times during the cascade. *)
+Theorem C10_cascade_tags_before_or_after :
+  forall (H : list N -> N) (shuffle : nat -> list entry -> list entry),
+    (forall c l e, In e (shuffle c l) <-> In e l) ->
+    forall (h : list hop) (d : N) (xs : list N) (k : nat),
+      let s := runc H shuffle src_inplace src_unlink_first h init in
+      (forall l, read_index (sfs s) = Some l -> forall x r, In x xs -> ~ tag_of l r x) ->
+      let os := Delete d :: map Delete xs in
+      let fsk := crash_seq H shuffle src_inplace src_unlink_first s os k in
+      same_tags fsk (sfs s) \/ same_tags fsk (sfs (run H shuffle src_inplace src_unlink_first os s)).
+Proof. exact cascade_tags_src. Qed.
+Print Assumptions C10_cascade_tags_before_or_after.
+
 (* the tag mapping a reader derives from index.json is the one before or the one after *)
 Theorem C10_tag_mapping_before_or_after :
   forall (H : list N -> N) (shuffle : nat -> list entry -> list entry),
